@@ -260,6 +260,12 @@ def gen_mcase(rng, kinds=('set', 'cascade', 'pop', 'match'), nops=None, run_impl
                 if rng.random() < 0.3 and p:
                     p = fancy_parent(rng, p)
                     k = rng.choice([0, 0, 1, 2])
+                if rng.random() < 0.3:
+                    # a match whose last step is a filter or the recursive step: it stands for the same node, behind a
+                    # bookkeeping match, and m.data = v / del m.data / m.pop() must still act on the container that holds
+                    # the node (C14-m12: the assignment going through real_parent instead of parent)
+                    t = ('pred', ('user', 'const', rng.choice([1, True, 'x'])))
+                    p = fix_path(list(p) + rng.choice([[t], [t], [('rec', False)], [t, t], [('rec', False), t]]))
                 op = ('hold', p, k)
                 nheld += 1
             else:
